@@ -7,6 +7,7 @@ from sa.rules import cpp_rules as C
 from sa.rules import ranges as RG
 from sa.rules import synth_rules as SY
 from sa.rules import maybe_rules as MB
+from sa.rules import window_rules as WN
 
 
 def main(tier):
@@ -34,6 +35,7 @@ def main(tier):
     chk.run("R-CONSTFOLD", R.constfold, r, floor=30)
     chk.run("R-OPCHAIN", C.opchain_cpp, r, cx.cpp, floor=20)
     chk.run("R-KLEENE", MB.kleene, cx.cpp, floor=36)
+    chk.run("R-ARRAYELEM", WN.arrayelem, cx.cpp, floor=6)
     chk.run("R-DOLLAR", B.dollar, r, floor=10)
     chk.run("R-ACCESSOR", B.accessor, r, floor=5)
     chk.run("R-DEPORDER", B.deporder, r, clauses=("ok",), floor=3)
